@@ -20,6 +20,21 @@ type C01Case struct {
 	Rules []*dsl.Rule `json:"rules"`
 	Lay   []byte      `json:"lay,omitempty"`
 	Fault string      `json:"fault,omitempty"`
+	// Rekind > 0: after the first execution the plain-injected numeric globals are injected
+	// again with their values rotated by Rekind places (gI gets the value - and the Go kind -
+	// gI8 had, and so on), and the same compiled rules are executed again on the same builder.
+	Rekind int `json:"rekind,omitempty"`
+}
+
+var c01NumericGlobals = []string{"gI", "gI8", "gI16", "gI32", "gI64", "gU", "gU8", "gU16", "gU32", "gU64", "gF32", "gF64"}
+
+// c01Rekind rotates the values behind the numeric globals of an injection map.
+func c01Rekind(inj map[string]interface{}, rot int) map[string]interface{} {
+	out := map[string]interface{}{}
+	for i, n := range c01NumericGlobals {
+		out[n] = inj[c01NumericGlobals[(i+rot)%len(c01NumericGlobals)]]
+	}
+	return out
 }
 
 // buildDSL compiles a text with the given injected objects on a fresh builder.
@@ -83,7 +98,7 @@ func classifyExpr(x *Ctx, e *dsl.Expr) (implicitGrouping bool) {
 func init() {
 	register(&Prop{
 		ID:   "C01",
-		Rule: "1-3 rules per text, each `[locals] return <expr>`; type-directed expression trees (depth <= 6, thorough 8) of class int/uint/float/string/bool over integer/real/string/bool literals (boundary and >2^53 values), rule locals, injected values of all 12 numeric kinds + string + bool (plain, struct field one and two levels deep, through pointer and value structs) and @name/@id/@desc/@sal with generated headers; parentheses printed only where the reference precedence requires them plus random redundant ones, random layout; ~20% of cases carry exactly one planted type fault or zero divisor; oracle = independent reference interpreter (value and class equal, or both fail; a panic or a value where the reference says error is a violation). Non-trivial: a grouping decided by precedence/associativity, or an int/uint/float kind mix, or an integer operand beyond 2^53, or a planted fault; distinct by case hash",
+		Rule: "1-3 rules per text, each `[locals] return <expr>`; type-directed expression trees (depth <= 6, thorough 8) of class int/uint/float/string/bool over integer/real/string/bool literals (boundary and >2^53 values), rule locals, injected values of all 12 numeric kinds + string + bool (plain, struct field one and two levels deep, through pointer and value structs) and @name/@id/@desc/@sal with generated headers; parentheses printed only where the reference precedence requires them plus random redundant ones, random layout; ~20% of cases carry exactly one planted type fault or zero divisor; oracle = independent reference interpreter (value and class equal, or both fail; a panic or a value where the reference says error is a violation). In a quarter of the cases the numeric plain-injected globals are injected again with rotated values and Go kinds and the same compiled rules are executed a second time. Non-trivial: a grouping decided by precedence/associativity, or an int/uint/float kind mix, or an integer operand beyond 2^53, or a planted fault; distinct by case hash",
 		New:  func() interface{} { return &C01Case{} },
 		Gen: func(t *rapid.T) interface{} {
 			c := &C01Case{World: genExprWorld(t)}
@@ -128,6 +143,9 @@ func init() {
 				}
 			}
 			c.Lay = genLayout(t, 30)
+			if pct(t, "rekind", 25) {
+				c.Rekind = uni(t, "rekind_rot", 1, 11)
+			}
 			return c
 		},
 		Check: func(ci interface{}, x *Ctx) {
@@ -161,68 +179,84 @@ func init() {
 				x.Class("fancy-layout")
 			}
 			refInj := c.World.inject()
-			for _, r := range c.Rules {
-				env := ref.NewEnv(refInj, r)
-				env.OnBin = func(op string, l, rv ref.Val) {
-					lvl := precLevel(op)
-					if lvl == "md" || lvl == "pm" || lvl == "cmp" {
-						x.Class(fmt.Sprintf("kinds:%s:%c%c", lvl, l.C, rv.C))
-						if l.C != rv.C && l.C != 's' && rv.C != 's' && l.C != 'b' && rv.C != 'b' {
-							x.NonTrivial()
-						}
-						for _, v := range []ref.Val{l, rv} {
-							if (v.C == 'i' && (v.I > 1<<53 || v.I < -(1<<53))) || (v.C == 'u' && v.U > 1<<53) {
-								x.Class("operand-beyond-2^53:" + lvl)
+			phases := 1
+			if c.Rekind > 0 {
+				phases = 2
+			}
+			for phase := 0; phase < phases; phase++ {
+				if phase == 1 {
+					x.Class("same-compiled-rules-executed-again-after-re-injection-with-other-kinds")
+					x.NonTrivial()
+					for n, v := range c01Rekind(c.World.inject(), c.Rekind) {
+						rb.Dc.Add(n, v)
+					}
+					for n, v := range c01Rekind(c.World.inject(), c.Rekind) {
+						refInj[n] = v
+					}
+				}
+				for _, r := range c.Rules {
+					env := ref.NewEnv(refInj, r)
+					env.OnBin = func(op string, l, rv ref.Val) {
+						lvl := precLevel(op)
+						if lvl == "md" || lvl == "pm" || lvl == "cmp" {
+							x.Class(fmt.Sprintf("kinds:%s:%c%c", lvl, l.C, rv.C))
+							if l.C != rv.C && l.C != 's' && rv.C != 's' && l.C != 'b' && rv.C != 'b' {
 								x.NonTrivial()
+							}
+							for _, v := range []ref.Val{l, rv} {
+								if (v.C == 'i' && (v.I > 1<<53 || v.I < -(1<<53))) || (v.C == 'u' && v.U > 1<<53) {
+									x.Class("operand-beyond-2^53:" + lvl)
+									x.NonTrivial()
+								}
 							}
 						}
 					}
-				}
-				want := env.Run()
-				if classifyExpr(x, r.Body.Ret) {
-					x.Class("implicit-grouping")
-					x.NonTrivial()
-				}
-				for _, s := range r.Body.Stmts {
-					classifyExpr(x, s.Val)
-				}
-				got, returned, gerr, pan := runOne(rb, r.Name)
-				fc := c.Fault
-				if fc == "" {
-					fc = "well-typed"
-				}
-				switch {
-				case pan != "":
-					x.Violation("panic:"+panicClass(pan), "rule %q: Execute panicked (%s) instead of returning an error; expected %s\n%s", r.Name, truncate(pan, 200), describe(want), text)
-				case want.Err != nil:
-					if gerr == nil {
-						x.Violation("value-for-error:"+want.Err.Class, "rule %q: reference semantics fail (%v) but gengine returned %v\n%s", r.Name, want.Err, got, text)
-					} else if returned {
-						// result entry despite the failure belongs to C11; not reported here
-						x.Class("entry-despite-error")
+					want := env.Run()
+					if classifyExpr(x, r.Body.Ret) {
+						x.Class("implicit-grouping")
+						x.NonTrivial()
 					}
-					x.Class("expected-error:" + want.Err.Class)
-				default:
-					if gerr != nil {
-						if env.MayErr {
-							x.Class("tolerated-undecided-operand-error")
+					for _, s := range r.Body.Stmts {
+						classifyExpr(x, s.Val)
+					}
+					got, returned, gerr, pan := runOne(rb, r.Name)
+					fc := c.Fault
+					if fc == "" {
+						fc = "well-typed"
+					}
+					switch {
+					case pan != "":
+						x.Violation("panic:"+panicClass(pan), "rule %q: Execute panicked (%s) instead of returning an error; expected %s\n%s", r.Name, truncate(pan, 200), describe(want), text)
+					case want.Err != nil:
+						if gerr == nil {
+							x.Violation("value-for-error:"+want.Err.Class, "rule %q: reference semantics fail (%v) but gengine returned %v\n%s", r.Name, want.Err, got, text)
+						} else if returned {
+							// result entry despite the failure belongs to C11; not reported here
+							x.Class("entry-despite-error")
+						}
+						x.Class("expected-error:" + want.Err.Class)
+					default:
+						if gerr != nil {
+							if env.MayErr {
+								x.Class("tolerated-undecided-operand-error")
+								break
+							}
+							x.Violation("error-for-value", "rule %q: reference value %s but gengine failed: %s\n%s", r.Name, want.Val, truncate(gerr.Error(), 300), text)
 							break
 						}
-						x.Violation("error-for-value", "rule %q: reference value %s but gengine failed: %s\n%s", r.Name, want.Val, truncate(gerr.Error(), 300), text)
-						break
+						if !returned {
+							x.Violation("no-result", "rule %q returned no value; reference value %s\n%s", r.Name, want.Val, text)
+							break
+						}
+						gv := ref.FromInterface(got)
+						if !ref.Same(gv, want.Val) {
+							x.Violation("wrong-value:"+string(want.Val.C), "rule %q: gengine returned %s, reference semantics give %s for `%s`\n%s", r.Name, gv, want.Val, dsl.ExprString(r.Body.Ret), text)
+						}
+						x.Class("value-class:" + string(want.Val.C))
 					}
-					if !returned {
-						x.Violation("no-result", "rule %q returned no value; reference value %s\n%s", r.Name, want.Val, text)
-						break
+					if x.Failed() {
+						return
 					}
-					gv := ref.FromInterface(got)
-					if !ref.Same(gv, want.Val) {
-						x.Violation("wrong-value:"+string(want.Val.C), "rule %q: gengine returned %s, reference semantics give %s for `%s`\n%s", r.Name, gv, want.Val, dsl.ExprString(r.Body.Ret), text)
-					}
-					x.Class("value-class:" + string(want.Val.C))
-				}
-				if x.Failed() {
-					return
 				}
 			}
 		},
